@@ -67,6 +67,11 @@ Arith(mode, ps) ==
              IF i > Len(ps) THEN I(acc)
              ELSE IF ps[i].t # "i" THEN E("type")
              ELSE LET v == ps[i].v IN
+                  \* TLC integers are 32-bit and overflow is a TLC run-time error: a result that may
+                  \* leave the window is the distinct outcome E("wide") (judges count it as unjudged)
+                  IF Abs(acc) > 1000000000 \/ Abs(v) > 1000000000 THEN E("wide")
+                  ELSE IF mode = "mul" /\ v # 0 /\ Abs(acc) > 1000000000 \div Abs(v) THEN E("wide")
+                  ELSE
                   CASE mode = "add" -> go(acc + v, i + 1)
                     [] mode = "sub" -> go(acc - v, i + 1)
                     [] mode = "mul" -> go(acc * v, i + 1)
